@@ -132,6 +132,12 @@ Proof.
   - apply IH; assumption.
 Qed.
 
+Theorem L_last_definition : forall pre r post,
+  Forall (fun r' => r_tag r' <> r_tag r \/ r_name r' <> r_name r) post ->
+  In r (get (build (pre ++ r :: post)) (r_tag r)) /\
+  (forall r0, In r0 (get (build (pre ++ r :: post)) (r_tag r)) -> r_name r0 = r_name r -> r0 = r).
+Proof. intros pre r post H. split; [apply L_last_definition_is_in_force; exact H|intros r0; apply L_earlier_definition_is_replaced; exact H]. Qed.
+
 (* ---- find_match ---- *)
 Theorem L_tried_is_a_prefix : forall cs os, tried cs os = firstn (List.length (tried cs os)) cs.
 Proof.
